@@ -27,6 +27,8 @@ type Entry struct {
 	MtimeS   int64           `json:"mtime,omitempty"`
 	Nested   *Archive        `json:"nested,omitempty"`  // payload = rendering of this archive
 	Garbage  bool            `json:"garbage,omitempty"` // zip-named non-zip: payload as is
+	// Literal: when set, the payload is exactly this (a symbolic-link entry stores the target of the link as its content)
+	Literal []byte `json:"literal,omitempty"`
 }
 
 type Archive struct {
@@ -43,6 +45,9 @@ func (e *Entry) Data() []byte {
 	if e.Nested != nil {
 		b, _ := e.Nested.Render()
 		return b
+	}
+	if e.Literal != nil {
+		return e.Literal
 	}
 	return e.Payload.Bytes()
 }
